@@ -7,6 +7,7 @@ mod gen;
 mod known;
 mod minimize;
 mod oracle_transport;
+mod oracle_wire;
 mod plan;
 mod rng;
 mod runner;
